@@ -971,15 +971,20 @@ def _contexts_active_by_referents(frame: types.FrameType, origin: Any) -> List[C
         root = origin
 
     for referent in gc.get_referents(root):
-        if isinstance(referent, types.MethodType) and referent.__func__.__name__ in (
-            "__exit__",
-            "__aexit__",
-        ):
+        if isinstance(referent, types.MethodType):
+            name = referent.__func__.__name__
+        elif isinstance(referent, types.BuiltinMethodType):
+            # Context managers implemented in C (threading.Lock, io objects,
+            # memoryview, ...) have builtin methods rather than bound methods
+            name = referent.__name__
+        else:
+            continue
+        if name in ("__exit__", "__aexit__"):
             # 'with' and 'async with' statements push a reference to the
             # __exit__ or __aexit__ method that they'll call when exiting.
             ret.append(
                 Context(
-                    is_async="a" in referent.__func__.__name__,
+                    is_async="a" in name,
                     obj=referent.__self__,
                 )
             )
